@@ -39,6 +39,7 @@ class Check:
     # -- recording ---------------------------------------------------
     def ob(self, key, ok, why="", where=None, trivial=False, sample=None):
         """Record one rule instance. key is line-number free: '<rule>/<instance>'."""
+        key = re.sub(r"\s+", "_", key)
         assert key.startswith(self.pid + ".") or key.split(".")[0].startswith("C"), key
         rule = key.split("/")[0]
         self.rules[rule] = self.rules.get(rule, 0) + 1
